@@ -11,7 +11,7 @@ def commit(prefix):
     assert len(c)==1,(prefix,c)
     return c[0]
 src=''.join(open(f).read() for f in sorted(glob.glob('/verif/harness/wit/*.go')))
-also={'D1':['C10'],'D2':['C01'],'D3':['C01'],'D4':['C01'],'D5':['C12'],'D6':['C12'],'D8':['C01'],'D12h':['C04'],'D17':['C10'],'D20':['C13'],'D22':['C01'],'D23':['C01'],'D24':['C01'],'D25':['C08']}
+also={'D1':['C10'],'D2':['C01'],'D3':['C01'],'D4':['C01'],'D5':['C12'],'D6':['C12'],'D8':['C01'],'D12h':['C04'],'D17':['C10'],'D20':['C13'],'D22':['C01'],'D23':['C01'],'D24':['C01'],'D25':['C08'],'D30':['C19']}
 avoid={'D4':'generators never produce a pointer to a nil pointer (**T with non-nil outer, nil inner)',
 'D20':'C13/C14 workloads take Descriptor() of non-recursive types only',
 'D21':'C13 value generator keeps flat int8/int16/int32 fields non-negative',
